@@ -1,5 +1,5 @@
 CONSTANTS Alphabet = {97, 98} MaxLen = 3 MaxDatas = {1} WeakM = 65536
-          SwallowSendBlockError = FALSE Faults = TRUE MaxLenT = 3 NFiles = 1
+          SwallowSendBlockError = FALSE Faults = TRUE OpReset = "whole" MaxLenT = 3 NFiles = 1 MissingFiles = TRUE TmReset = "whole"
 SPECIFICATION TSpecT
-INVARIANTS InvC20Transmit InvCleanDelivers InvNoCallAfterFailure
+INVARIANTS InvC20Transmit InvCleanDelivers InvNoCallAfterFailure InvStreamValid
 CHECK_DEADLOCK FALSE
